@@ -9,6 +9,8 @@ env = dict(os.environ); env.pop('PYERRORS_VERIF_TRACE', None); env['MPLBACKEND']
 r = subprocess.run(['/venv/bin/python', '-m', 'pytest', '-q', '-p', 'no:cacheprovider', '--timeout=900', '--continue-on-collection-errors',
                     '--junitxml=' + x], cwd=repo, env=env, capture_output=True, text=True)
 passed = set()
+if os.path.getsize(x) == 0:
+    print('pytest wrote no junit file:', r.stdout[-2000:], r.stderr[-2000:]); sys.exit(2)
 for tc in ET.parse(x).getroot().iter('testcase'):
     if not any(c.tag in ('failure', 'error', 'skipped') for c in tc):
         passed.add(tc.get('classname') + '::' + tc.get('name'))
